@@ -50,6 +50,8 @@ pub struct Case {
     pub nfonts: usize,
     pub info: Option<InfoSpec>,
     pub cached: bool,
+    /// the file identifier given to PdfBuilder::id
+    pub id: Option<(String, String)>,
 }
 
 fn rect(r: &[f32; 4]) -> Rectangle {
@@ -137,6 +139,9 @@ pub fn check_case(c: &Case, info: &mut CaseInfo) -> Result<(), Failure> {
                         mod_date: i.modified.as_ref().map(date),
                         trapped: i.trapped.map(|t| match t % 3 { 0 => Trapped::True, 1 => Trapped::False, _ => Trapped::Unknown }),
                     });
+                }
+                if let Some((a, b)) = &c.id {
+                    builder = builder.id(a.clone(), b.clone());
                 }
                 builder.build(CatalogBuilder::from_pages(pages))
             }};
@@ -231,6 +236,12 @@ pub fn check_case(c: &Case, info: &mut CaseInfo) -> Result<(), Failure> {
                     return Err(fail("operations", format!("page {}: {}", i, d)));
                 }
             }
+            if let Some((a, b)) = &c.id {
+                let got: Vec<Vec<u8>> = file.trailer.id.iter().map(|s| s.as_bytes().to_vec()).collect();
+                if got != vec![a.as_bytes().to_vec(), b.as_bytes().to_vec()] {
+                    return Err(fail("file-identifier", format!("identifier given [{:?}, {:?}], the reloaded trailer has {:?}", a, b, got.iter().map(|g| String::from_utf8_lossy(g).to_string()).collect::<Vec<_>>())));
+                }
+            }
             match file.get_page(c.pages.len() as u32) {
                 Ok(_) => return Err(fail("extra-page", "a page beyond the given ones exists".into())),
                 Err(_) => {}
@@ -312,7 +323,8 @@ pub fn case_strategy() -> impl Strategy<Value = Case> {
     // the builder imposes no size limit: some documents are large (many pages, long content streams) so that offsets
     // and object numbers pass the one- and two-byte field widths of the cross-reference stream
     let bulk = prop_oneof![12 => Just((1usize, 1usize)), 2 => (2usize..40, 1usize..4), 1 => (40usize..400, Just(1usize)), 2 => (1usize..3, 50usize..3000)];
-    (proptest::collection::vec(page(), 0..7), 0usize..4, proptest::option::weighted(0.6, info_s()), any::<bool>(), bulk).prop_map(|(pages, nfonts, info, cached, (pr, or))| {
+    let ident = proptest::option::weighted(0.5, ("[ -~]{0,16}", "[ -~]{0,16}"));
+    (proptest::collection::vec(page(), 0..7), 0usize..4, proptest::option::weighted(0.6, info_s()), any::<bool>(), bulk, ident).prop_map(|(pages, nfonts, info, cached, (pr, or), id)| {
         let mut pages = pages;
         if let Some(p0) = pages.first_mut() {
             if or > 1 && !p0.ops.is_empty() {
@@ -332,7 +344,7 @@ pub fn case_strategy() -> impl Strategy<Value = Case> {
                 }
             }
         }
-        Case { pages, nfonts, info, cached }
+        Case { pages, nfonts, info, cached, id }
     })
 }
 
@@ -373,4 +385,4 @@ pub fn run(ctx: &Ctx) {
     });
 }
 
-pub const RULE: &str = "cases = lists of 0-6 PageBuilders (operations from C08's generator, media/crop/trim boxes, rotation, resources with Type1/TrueType fonts and graphics states under generated names, extra entries, metadata/LGIDict/VP primitives) plus an optional information dictionary (arbitrary byte strings, calendar dates with all three time-zone relations, Trapped), built with PdfBuilder over cached or uncached storage; oracle (A) = reload with the library: page count and order, boxes, rotation, extra entries, resource keys and graphics-state values, fonts loadable, operation sequences (C08 equality), information entries; (B) = an independent strict reader (engine/reader.rs) accepts the bytes: header first, startxref at an xref section, every in-use entry at the matching 'n g obj', /Size above every number, every stream /Length ending at the end-of-line before endstream, no reference to an undefined or free object, /Root present; non-trivial = a page with operations and a resource; distinct by case";
+pub const RULE: &str = "cases = lists of 0-6 PageBuilders (operations from C08's generator, media/crop/trim boxes, rotation, resources with Type1/TrueType fonts and graphics states under generated names, extra entries, metadata/LGIDict/VP primitives) plus an optional file identifier (PdfBuilder::id) and an optional information dictionary (arbitrary byte strings, calendar dates with all three time-zone relations, Trapped), built with PdfBuilder over cached or uncached storage; oracle (A) = reload with the library: page count and order, boxes, rotation, extra entries, resource keys and graphics-state values, fonts loadable, operation sequences (C08 equality), information entries, the file identifier; (B) = an independent strict reader (engine/reader.rs) accepts the bytes: header first, startxref at an xref section, every in-use entry at the matching 'n g obj', /Size above every number, every stream /Length ending at the end-of-line before endstream, no reference to an undefined or free object, /Root present; non-trivial = a page with operations and a resource; distinct by case";
